@@ -30,7 +30,7 @@ from .. import common
 from ..translate import filtersrc as tr_filtersrc
 
 PROP = "C19"
-MODULES = ["XpmVerif.Properties.C19", "XpmVerif.Properties.C19Src", "XpmVerif.Properties.C19Links"]
+MODULES = ["XpmVerif.Properties.C19", "XpmVerif.Properties.C19Src", "XpmVerif.Properties.C19Links", "XpmVerif.Properties.C19Partial"]
 REQUIRED = ["XpmVerif.C19." + n for n in (
     "evalImpl_eq_spec", "clean_exact", "clean_never_running", "clean_noop_without_perform", "orphans_exact",
     "history_safe", "history_noop")] + ["XpmVerif.C19Src." + n for n in (
@@ -39,7 +39,9 @@ REQUIRED = ["XpmVerif.C19." + n for n in (
     "evalSrc_eq_spec", "cleanSrc_exact", "cleanSrc_never_running", "cleanSrc_noop_without_perform", "orphansSrc_exact",
     "historySrc_safe")] + ["XpmVerif.C19Links." + n for n in (
     "clean_exact_links", "clean_never_running_links", "clean_noop_without_perform_links", "orphans_exact_links",
-    "orphans_keeps_through_link", "history_safe_links")]
+    "orphans_keeps_through_link", "history_safe_links")] + [
+    "XpmVerif.C19Partial.clean_removes_only_selected", "XpmVerif.C19Partial.filter_true_is_selected", "XpmVerif.C19Partial.partial_conservative",
+    "XpmVerif.C19Src.src_filterRaise", "XpmVerif.C19Src.cleanPSrc_removes_only_selected"]
 
 
 def _own_findings():
@@ -357,7 +359,14 @@ def write_job(ws, j):
     d = ws / "jobs" / j["ty"] / j["id"]
     d.mkdir(parents=True)
     s = script_of(j["ty"])
-    (d / "params.json").write_text(json.dumps({"workspace": str(ws), "tags": j["tags"], "objects": []}))
+    text = json.dumps({"workspace": str(ws), "tags": j["tags"], "objects": []})
+    kind = j.get("params", "ok")  # "missing" / "truncated" / "notags": what an interrupted (re-)submission leaves
+    if kind == "truncated":
+        (d / "params.json").write_text(text[:max(1, len(text) // 2)])
+    elif kind == "notags":
+        (d / "params.json").write_text(json.dumps({"workspace": str(ws), "objects": []}))
+    elif kind != "missing":
+        (d / "params.json").write_text(text)
     (d / f"{s}.py").write_text("# script\n")
     if j["done"]:
         (d / f"{s}.done").touch()
@@ -650,6 +659,12 @@ def probe_quirks(ctx):
     invoke(["jobs", "--workdir", str(root), "clean", "--experiment", "e1", "--perform"])
     q["xpByScript"] = "c.t/o" not in job_keys(root)
     shutil.rmtree(root)
+    # what process() does with a job on which the filter raises (fallback of the translator piece `filterRaise`)
+    lay2 = {"jobs": [{"ty": "a.t", "id": "bad", "done": False, "failed": True, "pid": False, "alive": False, "tags": {}, "params": "missing"}], "xps": []}
+    materialise(root, lay2)
+    exc = invoke(["jobs", "--workdir", str(root), "clean", "--filter", 'model = "bm25"', "--perform"])
+    q["filterRaise"] = "abort" if exc is not None else ("selects" if "a.t/bad" not in job_keys(root) else "skips")
+    shutil.rmtree(root)
     return q
 
 
@@ -838,7 +853,150 @@ def run_state_case(ctx, c, q, lines, impls, root):
     ctx.case(c, False)
 
 
-RUNNERS = {"state": run_state_case, "filter": run_filter_case, "clean": run_clean_case, "orphans": run_orphans_case, "history": run_history_case}
+# ---------------------------------------------------------------- filters that cannot be evaluated on a job
+
+NUMBERS = [12, 3, 0.5, 2.5, -1]  # non-zero, pairwise different texts: `==` on them is equality of the texts
+
+
+def hz_of(j):
+    return {"noTags": j.get("params", "ok") != "ok", "nonStr": sorted(k for k, v in j["tags"].items() if not isinstance(v, str))}
+
+
+def kleene_atom(a, info, hz):
+    """'T' / 'F' / 'E' (evaluating the comparison raises): plain-Python meaning of one comparison on a job whose tag table may be
+    unreadable and whose tag values may be numbers"""
+    def get(var):
+        if var == "@state":
+            return info["state"]
+        if var == "@name":
+            return info["name"]
+        if hz["noTags"]:
+            raise LookupError(var)
+        return info["tags"].get(var)
+    try:
+        v = get(a["v"])
+        k = a["k"]
+        if k == "eqc":
+            r = v == a["c"]
+        elif k == "eqv":
+            r = v == get(a["w"])
+        elif k == "in":
+            r = v is not None and v in a["cs"]
+        elif k == "notin":
+            r = not (v is not None and v in a["cs"])
+        else:
+            if v is None or v == "":
+                r = False
+            elif not isinstance(v, str):
+                return "E"
+            else:
+                r = re.compile(a["p"]).match(v) is not None
+        return "T" if r else "F"
+    except LookupError:
+        return "E"
+
+
+def kleene_eval(expr, info, hz):
+    """three-valued documented meaning (Kleene): the verdict every evaluation order agrees on"""
+    def k_and(x, y):
+        return "F" if "F" in (x, y) else ("T" if (x, y) == ("T", "T") else "E")
+
+    def k_or(x, y):
+        return "T" if "T" in (x, y) else ("F" if (x, y) == ("F", "F") else "E")
+
+    acc = kleene_atom(expr["first"], info, hz)
+    for op, a in expr["rest"]:
+        b = kleene_atom(a, info, hz)
+        acc = k_and(acc, b) if op == "and" else k_or(acc, b)
+    return acc
+
+
+def gen_hazard_case(rng):
+    layout = gen_layout(rng, 6)
+    for j in layout["jobs"]:
+        if rng.random() < 0.3:
+            j["params"] = rng.choice(["missing", "truncated", "notags"])
+            if rng.random() < 0.7:  # a failed job whose re-submission was interrupted
+                j["failed"], j["done"] = True, False
+        elif rng.random() < 0.4:
+            j["tags"][rng.choice(TAGS[:4])] = rng.choice(NUMBERS)
+    opts = gen_clean_opts(rng, layout)
+    if opts["filter"] is None or rng.random() < 0.5:
+        r = rng.random()
+        if r < 0.5:
+            flt = {"first": {"k": "re", "v": rng.choice(TAGS[:4]), "p": rng.choice(PATTERNS)}, "rest": []}
+            if rng.random() < 0.4:
+                flt["rest"].append([rng.choice(["and", "or"]), gen_atom(rng)])
+        else:
+            flt = gen_expr(rng, 3)
+        opts["filter"], opts["text"] = flt, render(flt, rng)
+    opts["perform"] = rng.random() < 0.9
+    opts["flags"] = []
+    return {"kind": "hazard", "layout": layout, "opts": opts}
+
+
+def run_hazard_case(ctx, c, q, lines, impls, root):
+    """`jobs clean` on a workspace where the filter cannot be evaluated on some job.  Oracle (monitor): whatever the command does
+    (abort included) a removed job was finished, in scope, `--perform` was given and the filter's three-valued meaning on it is true."""
+    layout, opts = c["layout"], c["opts"]
+    ws = root / f"z{ctx.evaluations}"
+    materialise(ws, layout)
+    byk = {f"{j['ty']}/{j['id']}": j for j in layout["jobs"]}
+    states = {k: real_state(ws, j) for k, j in byk.items()}
+    for k, j in byk.items():
+        monitor_state(ctx, j, states[k], "hazard-case")
+    order = [f"{p.parent.name}/{p.name}" for p in (ws / "jobs").glob("*/*")]  # the order `process()` will see (unchanged directory)
+    before = snapshot(ws)
+    exc = invoke(clean_args(ws, opts))
+    after = snapshot(ws)
+    remaining = set(job_keys(ws))
+    shutil.rmtree(ws)
+    flt = opts["filter"]
+    index = {x["name"]: {tuple(k) for k in x["index"]} for x in layout["xps"]}
+    kl, hazardous = {}, False
+    for k, j in byk.items():
+        info = {"state": states[k], "name": j["ty"], "tags": j["tags"]}
+        kl[k] = "T" if flt is None else kleene_eval(flt, info, hz_of(j))
+        hazardous |= flt is not None and any(kleene_atom(a, info, hz_of(j)) == "E" for a in atoms_of(flt))
+    gone = set()
+    for k, j in byk.items():
+        if k in remaining:
+            continue
+        gone.add(k)
+        jcase = dict(c, job=k)
+        if not opts["perform"]:
+            ctx.monitor_fail("clean:removed-without-perform", f"jobs clean without --perform removed {k}", jcase)
+        if is_running(j):
+            ctx.monitor_fail("clean:removed-running:" + "+".join(n for n in ("failed", "pid") if j[n]), f"jobs clean removed {k} whose process is alive", jcase)
+        if not (j["done"] or j["failed"]):
+            ctx.monitor_fail("clean:removed-unfinished", f"jobs clean removed {k} which has neither a .done nor a .failed marker", jcase)
+        if opts["experiment"] is not None and (j["ty"], j["id"]) not in index.get(opts["experiment"], set()):
+            ctx.monitor_fail("clean:removed-outside-experiment:other", f"jobs clean --experiment {opts['experiment']} removed {k} which is not in that experiment's index", jcase)
+        if kl[k] != "T":
+            why = {"E": f"the filter cannot be evaluated on it (params.json {j.get('params', 'ok')}, non-string tags {hz_of(j)['nonStr']})", "F": "the filter does not select it"}[kl[k]]
+            ctx.monitor_fail("clean:removed-filter-not-true:" + ("unevaluable" if kl[k] == "E" else "false"),
+                             f"jobs clean --filter {opts['text']!r} --perform removed {k} although {why}: a job on which the filter cannot be evaluated is not selected", jcase)
+    if exc is not None and not hazardous:
+        ctx.monitor_fail(f"clean:raised:{exc_name(exc)}", f"jobs clean raised {exc!r} although the filter can be evaluated on every job", c)
+    extra = {p for p in before - after if not any(p == f"jobs/{k}" or p.startswith(f"jobs/{k}/") for k in gone)}
+    if extra or (after - before):
+        ctx.monitor_fail("clean:collateral", f"jobs clean changed paths outside removed job directories: gone {sorted(extra)[:5]} new {sorted(after - before)[:5]}", c)
+    jobs_line = []
+    for k in order:
+        j = byk[k]
+        h = hz_of(j)
+        jobs_line.append({"ty": j["ty"], "id": j["id"], "done": j["done"], "failed": j["failed"], "pid": j["pid"], "alive": j["alive"],
+                          "tags": sorted((t, v if isinstance(v, str) else str(v)) for t, v in j["tags"].items()), "noTags": h["noTags"], "nonStr": h["nonStr"]})
+    infos = [{"state": states[k], "name": byk[k]["ty"], "tags": {t: v for t, v in byk[k]["tags"].items() if isinstance(v, str)}} for k in order]
+    lines.append({"op": "cleanP", "q": q, "layout": {"jobs": jobs_line, "xps": layout["xps"]}, "opts": opts_line(opts), "rx": rx_table(flt, infos)})
+    impls.append({"raised": exc is not None, "remaining": sorted(remaining), "kleene": [kl[k] for k in order]})
+    ctx.count("hazard_outcome", ("raised" if exc is not None else "completed") + (":removed-some" if gone else ":removed-none"))
+    ctx.count("hazard_kleene", "".join(sorted(set(kl.values()))))
+    ctx.case({"kind": "hazard", "jobs": [[j["ty"], j["id"], j["done"], j["failed"], j["pid"], j["alive"], j["tags"], j.get("params", "ok")] for j in layout["jobs"]],
+              "xps": layout["xps"], "experiment": opts["experiment"], "filter": opts["text"], "perform": opts["perform"]}, hazardous and bool(gone))
+
+
+RUNNERS = {"hazard": run_hazard_case, "state": run_state_case, "filter": run_filter_case, "clean": run_clean_case, "orphans": run_orphans_case, "history": run_history_case}
 
 
 def gen_case(rng, kind):
@@ -847,6 +1005,8 @@ def gen_case(rng, kind):
         used = set()
         jobs = [j for j in (gen_job(rng, used) for _ in range(rng.choice([2, 3, 4]))) if j]
         return {"kind": "filter", "expr": expr, "text": render(expr, rng), "jobs": jobs}
+    if kind == "hazard":
+        return gen_hazard_case(rng)
     layout = gen_layout(rng)
     if kind == "clean":
         c = {"kind": "clean", "layout": layout, "opts": gen_clean_opts(rng, layout)}
@@ -892,7 +1052,7 @@ def gen_cases(ctx, n, rng, corpus=True):
     cases = list(CORPUS) if corpus else []
     for _ in range(n):
         r = rng.random()
-        kind = "filter" if r < 0.45 else "clean" if r < 0.78 else "orphans" if r < 0.92 else "history"
+        kind = "filter" if r < 0.45 else "clean" if r < 0.74 else "hazard" if r < 0.80 else "orphans" if r < 0.92 else "history"
         cases.append(gen_case(rng, kind))
     return cases
 
@@ -934,6 +1094,8 @@ def run_cases(ctx, cases, q, with_model=True):
             mi, ii = {"raised": m.get("raised"), "remaining": m.get("remaining")}, _canon(i)
         elif op == "orphans":
             mi, ii = {"remaining": m.get("remaining"), "raised": None}, _canon(i)
+        elif op == "cleanP":
+            mi, ii = {"raised": m.get("raised"), "remaining": m.get("remaining"), "kleene": m.get("kleene")}, _canon(i)
         elif op == "cleanL":
             mi, ii = {"raised": m.get("raised"), "remaining": m.get("remaining"), "links": sorted(m.get("links", []))}, _canon(i)
         elif op == "orphansL":
@@ -961,7 +1123,7 @@ def correspond(ctx):
         "pyparsing tokenisation, click option parsing, pathlib/glob/rmtree semantics (exercised, not proved)",
     ]
     q = _quirks(ctx)
-    ctx.extra_cov["source_variant_observed"] = {k: ("pinned-defect" if v else "repaired") for k, v in q.items()}
+    ctx.extra_cov["source_variant_observed"] = {k: (v if isinstance(v, str) else "pinned-defect" if v else "repaired") for k, v in q.items()}
     ctx.notes.append(f"model switches observed on the source: {q}")
     ctx._q = q
     n = ctx.scale(3000, 36000)
